@@ -13,6 +13,7 @@ CONSTANTS
   AtomicRemove = FALSE
   RemoveByHash = FALSE
   LockedRemove = TRUE
+  InconsOnFault = FALSE
   Contents = {0,1}
   FinLag = 0
   NoIdle = FALSE
